@@ -489,6 +489,7 @@ package main
 //@   local c := mkCfg(redactedString, redactNumbers, redactBooleans, shouldEncrypt && encryptionKey != nil, mkbytes(elems(encryptionKey), off(encryptionKey), len(encryptionKey)), redactedFieldsRegexp, emailRegex, redactNamespaces)
 //@   ensures same-slice: result == arr
 //@   loop 1 invariant key-path-frame: unchangedBelowExcept("Arr:Str", base(keyPath))
+//@   loop 1 mandatory
 //@   loop 1 each element-relation {C01,C03,C05}: ElemRelA(c, redactFieldNames, isSearchStage, parentKey, item, arr[_idx])
 //@   ensures key-path-frame: unchangedBelowExcept("Arr:Str", base(keyPath))
 //@   defines array-relation {C01,C03,C05,C02}: RelA(c, redactFieldNames, isSearchStage, parentKey, arr) := true
